@@ -192,8 +192,9 @@ exactly `4 - k` deliveries found a pending frame, where `k ≤ 4` is the number 
 created beyond these four; as long as `k ≠ 0` some node has a pending frame (so a schedule in which every pending frame
 is eventually delivered drives `k` to 0 after exactly 4 effective deliveries: the bound); and at `k = 0` the bus is
 quiescent, the library device (lower NAME) holds `a` and the foreign node has moved to `nx f0 ≠ a`.
-Not covered (still partial, `C03_converges_partial`): more than two nodes, several devices, the library with the
-higher NAME (symmetric shapes, not written out), timers/polls interleaved with the contest. -/
+The mirror case (library with the higher NAME moves) is `C03_converges_two_nodes_lib_moves`. Not covered (still partial,
+`C03_converges_partial`): more than two nodes, several devices per instance, two library instances against each other,
+timers/polls interleaved with the contest. -/
 theorem C03_converges_two_nodes (b0 : Bus) (n0 : Nat) (f0 : Iso.Node) (nx : Iso.Node → Nat)
     (hlt : n0 < f0.name) (hn1 : f0.name < 2^64) (ha : f0.addr ≤ 251) (hnx : ∀ f, nx f < 256) (hne : nx f0 ≠ f0.addr)
     (hnext : b0.next = nx) (h0 : Two b0 n0 f0.addr f0 [(f0.name, f0.addr)] [(n0, f0.addr)]) (evs : List Nat) :
@@ -208,6 +209,32 @@ theorem C03_converges_two_nodes (b0 : Bus) (n0 : Nat) (f0 : Iso.Node) (nx : Iso.
   · obtain ⟨k', rfl⟩ : ∃ k', k = k' + 1 := ⟨k - 1, by omega⟩
     exact phL_pending hp
   · subst hk; exact phL_zero hp
+
+/-- **C03_converges_two_nodes_lib_moves (the mirror case).** Same two-node bus and crossed claims as in
+`C03_converges_two_nodes`, but the library device `d0` (NAME `n0`, end-of-search address `d0.endSource`) has the HIGHER
+NAME. For every schedule of deliveries the same accounting holds (`k` + deliveries that found a pending frame = 4, no frame
+beyond these four is created, some frame is pending while `k ≠ 0`). At `k = 0` the bus is quiescent, the foreign node
+(lower NAME) still holds the contested address `a`, and the library device sits at `nxt a d0.endSource`: the next address
+`(a+1) % 252` (251 wraps to 0; no sibling to skip) or 254 when `a` is its end-of-search address (search exhausted); the
+change is latched for the application (`Chg`: `AddressChanged` is set and not yet read). -/
+theorem C03_converges_two_nodes_lib_moves (b0 : Bus) (n0 : Nat) (f0 : Iso.Node) (x0 : Inst) (d0 : Dev) (nx : Iso.Node → Nat)
+    (hgt : f0.name < n0) (hn1 : f0.name < 2^64) (ha : f0.addr ≤ 251) (hnx : ∀ f, nx f < 256)
+    (hnext : b0.next = nx) (hx0 : (b0.node 0).kind = .lib x0) (hd0 : x0.s.devs = [d0])
+    (h0 : Two b0 n0 f0.addr f0 [(f0.name, f0.addr)] [(n0, f0.addr)]) (evs : List Nat) :
+    ∃ k, k + eff b0 evs = 4 ∧ PhH n0 f0 x0 d0.endSource nx k (run b0 (evs.map Ev.deliver)) ∧
+      (k ≠ 0 → ∃ i, i < (run b0 (evs.map Ev.deliver)).n ∧ ((run b0 (evs.map Ev.deliver)).node i).inbox ≠ []) ∧
+      (k = 0 → quiescent (run b0 (evs.map Ev.deliver)) ∧
+        claimants ((run b0 (evs.map Ev.deliver)).node 0).kind = [(n0, nxt f0.addr d0.endSource)] ∧
+        claimants ((run b0 (evs.map Ev.deliver)).node 1).kind = [(f0.name, f0.addr)] ∧
+        nxt f0.addr d0.endSource ≠ f0.addr ∧ Chg (run b0 (evs.map Ev.deliver))) := by
+  obtain ⟨k, hp, he⟩ := converge_run (PhH n0 f0 x0 d0.endSource nx)
+    (fun k b i h => phH_step n0 f0 x0 d0 nx hgt hn1 ha hnx hd0 k b h i) evs 4 b0 ⟨hnext, h0, hx0⟩
+  refine ⟨k, he, hp, fun hk => ?_, fun hk => ?_⟩
+  · obtain ⟨k', rfl⟩ : ∃ k', k = k' + 1 := ⟨k - 1, by omega⟩
+    exact phH_pending hp
+  · subst hk
+    obtain ⟨q, c0, c1, hc⟩ := phH_zero hp
+    exact ⟨q, c0, c1, nxt_ne _ _ ha, hc⟩
 
 /-! ## the receive slots in front of the claim handler; a device without an address stays silent -/
 
@@ -383,6 +410,19 @@ example : Two demoTwo 0x300 demoF.addr demoF [(demoF.name, demoF.addr)] [(0x300,
     Iso.nextAddr demoF ≠ demoF.addr := by
   refine ⟨⟨rfl, ⟨demoX, rfl, libOK_of_fields _ _ (demoLib_ok 251 0x300 (by omega) (by omega)) rfl rfl rfl rfl rfl rfl rfl, rfl, rfl⟩,
     rfl, rfl, rfl, rfl, ?_, ?_⟩, by decide, by decide⟩
+  · intro c hc; simp at hc; subst hc; exact ⟨by decide, by decide⟩
+  · intro c hc; simp at hc; subst hc; exact ⟨by decide, by decide⟩
+
+/-- hypotheses of `C03_converges_two_nodes_lib_moves` are satisfiable: library NAME 0x300 against the foreign NAME 0x200,
+both at 251 with crossed claims; the device will wrap to 0 (its end-of-search address is 250) -/
+def demoFlow : Iso.Node := ⟨0x200, 251, true, 251, true⟩
+def demoTwoH : Bus :=
+  { n := 2, node := fun i => if i = 0 then ⟨.lib demoX, [frameOfClaim (0x200, 251)]⟩ else ⟨.foreign demoFlow, [frameOfClaim (0x300, 251)]⟩ }
+example : Two demoTwoH 0x300 demoFlow.addr demoFlow [(demoFlow.name, demoFlow.addr)] [(0x300, demoFlow.addr)] ∧
+    demoFlow.name < (0x300 : Nat) ∧ (demoTwoH.node 0).kind = .lib demoX ∧ demoX.s.devs = [mkDev .t32 251 0x300] ∧
+    nxt demoFlow.addr (mkDev .t32 251 0x300).endSource = 0 := by
+  refine ⟨⟨rfl, ⟨demoX, rfl, libOK_of_fields _ _ (demoLib_ok 251 0x300 (by omega) (by omega)) rfl rfl rfl rfl rfl rfl rfl, rfl, rfl⟩,
+    rfl, rfl, rfl, rfl, ?_, ?_⟩, by decide, rfl, rfl, by decide⟩
   · intro c hc; simp at hc; subst hc; exact ⟨by decide, by decide⟩
   · intro c hc; simp at hc; subst hc; exact ⟨by decide, by decide⟩
 
